@@ -451,6 +451,7 @@ func (t *WeightedMerkleTrie) RollbackTrie(node Node) {
 		batcher.Commit(false) //nolint:errcheck
 	}
 	t.created = nil
+	t.tempDeleted = nil
 	clear(t.deleted)
 }
 
